@@ -73,6 +73,8 @@ type RenderOpts struct {
 	// MinParens renders AND/OR/NOT with only the parentheses that standard
 	// precedence requires (NOT > AND > OR); otherwise fully parenthesised.
 	MinParens bool
+	// BarePaths renders nested paths unquoted (o1.q.r) instead of back-ticked.
+	BarePaths bool
 	// ColText overrides the rendering of specific column names (used for
 	// pseudo-columns such as aggregate calls in HAVING).
 	ColText map[string]string
